@@ -194,7 +194,7 @@ def main():
         ],
         "checks": checks,
         "not_applicable": [],
-        "notes": "Properties without a check yet are work in progress (neither claimed nor declared not applicable).",
+        "notes": "All 20 properties have a registered check; not_applicable is empty. Open known findings (KNOWN_FINDINGS.json; the check prints a KNOWN-FINDING line and exits 0): D8 (C07, thermostat write offset with undefined slots), D16 (C14, resynchronisation of frames with an interior start delimiter), D23 (C06, creation race of parameter objects). Fixed in /repo by separate `fix:` commits: D1-D7, D9-D15, D17-D22, D24, D25 (DESIGN.md section 11). tools/full_pass.sh, tools/refactor_pass.sh and tools/thorough_pass.sh re-run everything (all checks with several generator seeds, every stored seeded change, every stored behaviour-preserving refactoring, the thorough tier).",
     }
     with open(os.path.join(root, "MANIFEST.json"), "w") as f:
         json.dump(m, f, indent=1)
